@@ -51,8 +51,6 @@ for n, dmax, tier in ((1, 1, 'quick'), (2, 2, 'quick'), (3, 3, 'thorough')):
         if d < n:
             K('C19', 'K1.step.n%d.d%d.disconnect' % (n, d), 'teos', _p + 'c19_step_n%d_d%d_disconnect' % (n, d),
               'N=%d, after %d disconnections, disconnect the tip: same post-condition' % (n, d), tier)
-K('C19', 'K1.refill.n2', 'teos', _p + 'c19_reorg_refill_n2',
-  'N=2: disconnect, then two connections (second evicts): look-ups and heights', 'thorough', timeout=2400)
 K('C19', 'K3.production_keys', 'teos', _p + 'c19_production_keys',
   'Locator key = first 16 bytes of the txid for all 32-byte ids; Txid key = identity')
 
@@ -185,7 +183,7 @@ for _n, _t in (('confirmed_here', 'quick'), ('confirmed_elsewhere', 'quick'), ('
 K('C04', 'P3.handle_reorged', 'teos', _r + 'c04_p3_handle_reorged', 'handle_reorged_txs: dispute re-announced first, penalty only if the dispute was not refused; not refused => InMempoolSince(height); refused => reported; bystanders untouched')
 K('C04', 'P4.rebroadcast_threshold', 'teos', _r + 'c04_p4_rebroadcast_threshold', 'rebroadcast_stale_txs(height) selects InMempoolSince(height - 6) for every height >= 6')
 K('C04', 'P4.rebroadcast_fresh', 'teos', _r + 'c04_p4_rebroadcast_fresh_boundary', 'a penalty unconfirmed for 5 blocks and a confirmed tracker are not re-submitted')
-K('C04', 'P4.rebroadcast_rejected', 'teos', _r + 'c04_p4_rebroadcast_stale_boundary_rejected', 'a penalty unconfirmed for exactly 6 blocks is re-submitted (only it); refused => reported for deletion', 'thorough')
+K('C04', 'P4.rebroadcast_rejected', 'teos', _r + 'c04_p4_rebroadcast_stale_boundary_rejected', 'a penalty unconfirmed for exactly 6 blocks is re-submitted (the penalty, only it); refused => reported for deletion')
 K('C04', 'P4.rebroadcast_f7_witness', 'teos', _r + 'c04_p4_rebroadcast_f7', 'witness of known finding F7: verdict "already in chain" on a re-submission makes rebroadcast_stale_txs unwrap() an error', 'thorough')
 K('C04', 'K1.refund_one', 'teos', _g + 'c07_k4_delete_refund_one', 'completed trackers are deleted with refund: owner gets exactly slots(blob) back, once (memory and DB)')
 K('C04', 'K1.norefund_one', 'teos', _g + 'c07_k4_delete_norefund_one', 'rejected trackers are deleted without refund')
@@ -415,3 +413,13 @@ PROPS['C13'] = {
 M('C13', 'M1.no_spin', 'retry_progress', 'inside Retrier::run every answered appointment either leaves the in-memory pending set or ends the run (so that the back-off strategy decides when to try again): no immediate re-send without progress', part='no_spin')
 M('C13', 'M2.single_loop', 'retry_progress', 'manage_retry starts a retrier only on the true edge of should_start(); Retrier::start marks it Running before spawning the task: never two retry loops for one tower', part='single_loop')
 M('C13', 'M3.errors_keep_pending', 'retrier_run', 'while a tower keeps failing (connection / subscription / unusable reply) the run ends with an error and the pending data is retained', part='errors_keep_pending')
+M('C06', 'M1.per_appointment_decrypt', 'per_appointment_decrypt', 'Watcher::handle_breaches (structural): every iteration of the per-appointment loop loads that appointment and decrypts its own blob exactly once before the breach is handed on or reported invalid (users sharing a locator are judged by their own data)')
+M('C01', 'M1.per_appointment_decrypt', 'per_appointment_decrypt', 'every appointment under a breached locator is decrypted with the dispute id in its own loop iteration', 'thorough')
+PROPS['C06']['assumptions'] = PROPS['C06']['assumptions'] + M_ASSUME[:2]
+M('C14', 'M3.startup_no_retry_of_misbehaving', 'plugin_startup_retry', 'at client start-up a tower is handed to the retry manager only on the true edge of is_temporary_unreachable(): a tower with a stored misbehaviour proof is never queued again, whatever pending data it still has')
+M('C13', 'M4.startup_retry_gate', 'plugin_startup_retry', 'after a restart exactly the towers that are temporarily unreachable (pending data, no proof) are queued for retrying', 'thorough')
+# the TxIndex heights feed ConfirmedIn(h): C04 inherits the C19 steps that involve a disconnection
+K('C04', 'K2.index_height_after_reorg', 'teos', 'tx_index::verif_harness::c19_step_n2_d1_connect', 'after a disconnection and a replacement block the recent-block index reports true heights (what handle_breach records as ConfirmedIn)')
+K('C04', 'K2.index_height_after_disconnect', 'teos', 'tx_index::verif_harness::c19_step_n2_d0_disconnect', 'after a disconnection the remaining blocks keep their true heights', 'thorough')
+
+K('C02', 'P3.rebroadcast_sends_penalty', 'teos', _r + 'c04_p4_rebroadcast_stale_boundary_rejected', 'what is re-submitted for a stale tracker is its penalty transaction (and only that)')
